@@ -279,14 +279,46 @@ func (r *Run) jobMain(j *JobRec) int {
 	// Every file named in the arguments must exist now (C04).
 	r.checkArgFiles(j, args)
 
+	// Legal stage behaviour the VDR logic must cope with: all files of the job may
+	// live in a sub-directory of files/ which the outputs name through a symlink
+	// (files/current -> data_v1), and an output file may have an unreferenced
+	// companion whose name extends its own (x, x.idx).
+	linkDir := r.Cfg.LinkDirs && hash64(r.FCfg.Salt, j.Key(), j.Phase, "linkdir")%3 == 0
 	files := func(name, content string) string {
-		p := path.Join(j.FilesPath, sanitizeFileName(name))
+		fname := sanitizeFileName(name)
+		dir, logical := j.FilesPath, ""
+		if linkDir {
+			dir = path.Join(j.FilesPath, "data_v1")
+			logical = path.Join(j.FilesPath, "current")
+			if _, err := os.Lstat(logical); err != nil {
+				vos.MkdirAll(dir, 0755)
+				vos.Symlink("data_v1", logical)
+				j.check()
+				r.Faults["stage-output-through-symlinked-dir"]++
+			}
+		}
+		p := path.Join(dir, fname)
 		if err := vos.WriteFile(p, []byte(content), 0644); err != nil {
 			return p
 		}
 		j.check()
 		j.Wrote = append(j.Wrote, p)
 		r.noteFile(j, p, content)
+		if r.Cfg.Companions && hash64(r.FCfg.Salt, j.Key(), j.Phase, name, "companion")%3 == 0 {
+			cp := p + ".idx"
+			cc := "idx|" + content
+			if vos.WriteFile(cp, []byte(cc), 0644) == nil {
+				j.check()
+				r.Files[cp] = &FileRec{Path: cp, Content: cc, Job: j, Seq: vos.NextSeq(), Extra: true}
+				r.Faults["stage-output-with-companion-file"]++
+			}
+		}
+		if logical != "" {
+			lp := path.Join(logical, fname)
+			r.Files[p].Logical = lp
+			r.Logical[lp] = p
+			return lp
+		}
 		return p
 	}
 	r.extraFiles(j, fargs)
